@@ -112,7 +112,7 @@ def mp_lists(store):
     return out or None
 
 
-def run_equiv(n, sub_seed):
+def run_equiv(n, sub_seed, fixed_ops=None):
     res = ShardResult()
     rng = random.Random(sub_seed)
     contents = {k: make_content(v["cseed"], v["size"]) for k, v in SPEC.items()}
@@ -125,13 +125,15 @@ def run_equiv(n, sub_seed):
         try:
             wt = World(scratch, contents, docs, pids=pids, fmts=fmts, store_dir="th")
             wm = mp_store_world(scratch, "mp", contents, docs, pids, fmts)
-            if not getattr(wm.store, "use_multiprocessing", False):
+            if not mp_mode_entered(wm.store):
                 res.inconclusive.append("store built with USE_MULTIPROCESSING=True did not enter multiprocessing mode")
                 return res
             ops = []
             for _ in range(25):
                 ops.append(random_meta_op(rng, pids, fmts, list(DOCS)) if rng.random() < 0.25 else
                            random_object_op(rng, pids, ["A", "B"], kinds=("path", "file", "bytesio")))
+            if fixed_ops is not None:
+                ops = fixed_ops     # (replay of a recorded call sequence)
             for i, op in enumerate(ops):
                 mkey = wt.model.key()
                 wt.model.apply(op)
@@ -357,8 +359,13 @@ def run_shard(kind, *args):
 def replay(witness):
     if witness.get("engine") == "conc":
         return P.replay_witness(witness, SYMPTOMS)
+    if witness.get("engine") == "C16a":
+        return run_equiv(1, 0, fixed_ops=witness["ops"])
+    if witness.get("engine") == "C16d":
+        return run_faults([witness["case_index"]], "thorough")
     res = ShardResult()
     print(jsonable(witness))
     res.evaluations = 1
-    res.inconclusive.append("C16 (a)/(c) witnesses carry the call sequence / recorded history; re-run the check to reproduce")
+    res.inconclusive.append("a C16 (c) witness is a recorded history of OS-scheduled processes: it is evidence, not a "
+                            "deterministic script; re-run the check to look for the mechanism again")
     return res
